@@ -387,7 +387,20 @@ fn other_kind(doc: &Doc, rng: &mut Rng) -> Doc {
             2 => Doc::Int(if rng.chance(1, 4) { u64::MAX - rng.below(3) as u64 } else { rng.below(10) as u64 }),
             3 => Doc::Neg(if rng.chance(1, 4) { i64::MIN } else { -3 }),
             4 => Doc::Float(2.5),
-            5 => Doc::Str("oops".to_string()),
+            5 => Doc::Str(
+                rng.pick(&[
+                    "oops",
+                    "oops",
+                    "\u{1b}[31mred\u{1b}[0m",
+                    "nul\0byte",
+                    "tab\tquote\"back\\slash",
+                    "\u{200b}zero-width",
+                    "del\u{7f}",
+                    "\u{8}\u{c}",
+                    "",
+                ])
+                .to_string(),
+            ),
             6 => Doc::Seq(vec![Doc::Int(1), Doc::Str("two".into())]),
             _ => Doc::Map(vec![("k".to_string(), Doc::Null)]),
         };
